@@ -104,6 +104,11 @@ def judge_notifications(ctx, run):
                 ctx.check('cease-on-admin-reset', code == 6, sig='C10:admin-reset-answered-%d/%d' % (code, sub), info=s)
         return
     exp = expected(last_kind, last_state, run.hold)
+    if exp[0] == 'continue' and run.hold == 0 and last_kind == 'keepalive' and last_state == 'ESTABLISHED' and [(c, sc) for _, c, sc in notes] == [(2, 6)]:
+        # RFC 4271 4.4: with a negotiated Hold Time of zero periodic KEEPALIVEs MUST NOT be sent.  ExaBGP tolerates one and
+        # answers the next with 2/6 (Unacceptable Hold Time): a defined code for a peer breaking a MUST NOT; accepted.
+        ctx.cover('keepalive-on-hold-0-session-refused')
+        return
     ctx.note('class', '%s@%s->%s' % (last_kind, last_state, exp[0]))
     if exp[0] == 'notify':
         got = [(c, sc) for _, c, sc in notes]
